@@ -222,6 +222,13 @@ def run(ctx, rep):
     c01.dayloop_order(R, r2)
     for o in r2.obligations:
         rep.ob("R5", o["instance"], o["ok"], o["detail"], o["site"], key="R5:" + o["instance"])
+    # lines dated on the sale's own day have no effect on its 30-day look-ahead, wherever they are written (shared with C01-R3:
+    # every candidate effect lies behind the `days ≥ 1` test; seeded change C06-s7)
+    r2b = Report("tmp")
+    c01.window(R, r2b)
+    for o in r2b.obligations:
+        if o["instance"].startswith("window:effect"):
+            rep.ob("R5", o["instance"], o["ok"], o["detail"], o["site"], key="R5:" + o["instance"])
     for v in r2.violations:
         if v["instance"].startswith("role:"):
             rep.ob("R5", v["instance"], False, v["detail"], v["site"], key="R5:" + v["instance"])
@@ -230,6 +237,10 @@ def run(ctx, rep):
     # adjustment and one written below it would not (shared with C11-R3; seeded change C06-s3)
     # a reservation (or any quantity map) shared by all securities must be keyed per security: keyed by the date alone, the first
     # security whose look-ahead reaches a date decides for all — and which one is first depends on line order (shared with C09-R1)
+    # splitting one fill into several lines changes nothing — in particular two IDENTICAL part fills are two lines, not one
+    # (shared with C02-R10: the transaction list is never thinned)
+    import rules.c02 as c02_
+    c02_.every_line_counts(R, rep, "R6")
     import rules.c09 as c09
     r4 = Report("tmp")
     c09.keyed_access(R, r4)
